@@ -7,6 +7,7 @@ import sys
 import threading
 
 ckpt_dir, oplog, kill_at, asyn, kind, K, f, m = sys.argv[1], sys.argv[2], int(sys.argv[3]), int(sys.argv[4]), sys.argv[5], int(sys.argv[6]), int(sys.argv[7]), int(sys.argv[8])
+resume = len(sys.argv) > 9 and sys.argv[9] == "resume"      # second stage: rebuild from the directory with restore(), keep checkpointing into it
 _fd = os.open(oplog, os.O_WRONLY | os.O_CREAT | os.O_APPEND, 0o644)
 _lock = threading.Lock()
 _count = [0]
@@ -56,6 +57,15 @@ from mdpax.solvers.relative_value_iteration import RelativeValueIteration  # noq
 from mdpax.solvers.periodic_value_iteration import PeriodicValueIteration  # noqa: E402
 from mdpax.solvers.policy_iteration import PolicyIteration  # noqa: E402
 
+cls = {"vi": ValueIteration, "rvi": RelativeValueIteration, "periodic": PeriodicValueIteration, "pi": PolicyIteration}[kind]
+if resume:
+    s = cls.restore(ckpt_dir)
+    os.write(_fd, f"START resumed_at={int(s.iteration)}\n".encode())
+    s.solve(K)
+    if s.checkpoint_manager is not None:
+        s.checkpoint_manager.wait_until_finished()
+    os.write(_fd, f"DONE {int(s.iteration)}\n".encode())
+    sys.exit(0)
 kw = dict(gamma=0.5, epsilon=1e-13, checkpoint_dir=ckpt_dir, checkpoint_frequency=f, max_checkpoints=m, enable_async_checkpointing=bool(asyn), verbose=0)
 prob = Forest(S=5, p=0.125, r1=6.0, r2=3.0)
 if kind == "vi":
